@@ -15,9 +15,14 @@ import (
 // token: on an unbuffered channel the send succeeds only if the reader is already parked, so a reader that has seen an
 // empty buffer and released the lock but not yet entered its select misses it and sleeps on delivered bytes.
 func c16Wakeup(c *Ctx) {
+	wakeupNotLost(c, agentRel, "agentConnection.receive no longer signals its reader with a non-blocking send (rule needs re-anchoring)", "bytes already appended to the connection's buffer are not read until another message arrives")
+}
+
+// wakeupNotLost: see c16Wakeup; shared with C14 (the raw listener's Socket.flush wakes Socket.Read the same way).
+func wakeupNotLost(c *Ctx, rel, anchorMsg, consequence string) {
 	p := c.P
 	n := 0
-	for _, fn := range p.FuncsIn(agentRel) {
+	for _, fn := range p.FuncsIn(rel) {
 		for _, b := range fn.Blocks {
 			for _, in := range b.Instrs {
 				sel, ok := in.(*ssa.Select)
@@ -38,7 +43,7 @@ func c16Wakeup(c *Ctx) {
 				key := fmt.Sprintf("non-blocking wake-up on %s.%s in %s", owner.Obj().Name(), fieldNameOf(fa), shortFn(fn))
 				// every channel ever stored in that field has room for one token
 				makes, bad := 0, ""
-				for _, g := range p.FuncsIn(agentRel) {
+				for _, g := range p.FuncsIn(rel) {
 					for _, b2 := range g.Blocks {
 						for _, in2 := range b2.Instrs {
 							st, ok := in2.(*ssa.Store)
@@ -64,11 +69,11 @@ func c16Wakeup(c *Ctx) {
 				if makes == 0 && bad == "" {
 					bad = "no make(chan …) stored into the field found"
 				}
-				c.Check(bad == "", "wakeup-not-lost", key, p.InstrPos(sel), "the signalled channel has capacity for the token", bad+": the non-blocking send is dropped whenever the reader is not already waiting, and bytes already appended to the connection's buffer are not read until another message arrives")
+				c.Check(bad == "", "wakeup-not-lost", key, p.InstrPos(sel), "the signalled channel has capacity for the token", bad+": the non-blocking send is dropped whenever the reader is not already waiting, and "+consequence)
 			}
 		}
 	}
-	c.Check(n >= 1, "wakeup-not-lost", "non-blocking wake-up found", "-", fmt.Sprint(n), "agentConnection.receive no longer signals its reader with a non-blocking send (rule needs re-anchoring)")
+	c.Check(n >= 1, "wakeup-not-lost", "non-blocking wake-up found", "-", fmt.Sprint(n), anchorMsg)
 }
 
 // c16EOFAfterDrain: the agent connection reports end-of-stream to the service only when nothing is left in its
